@@ -18,6 +18,7 @@ import QbeeModel.Model.Dbg
 import QbeeModel.Model.DbgEval
 import QbeeModel.Model.Blocks
 import QbeeModel.Model.Lex
+import QbeeModel.Model.Src
 /-
   Line-protocol driver for the executable models.  One request per line, one
   answer per line.  Unknown or malformed requests answer `bad-op`; the models
@@ -670,6 +671,111 @@ def handleLex (t : String) : Option String := do
   let s ← decStr t
   pure (" ".intercalate ((Lex.lex s).map encLexTok))
 
+
+/-! ### statement-level reference semantics (C01): `src <fuel> <nvars> <n> stmt…` -/
+
+def srcOp (t : String) : Option Src.BOp :=
+  match t with
+  | "add" => some .add | "sub" => some .sub | "mul" => some .mul | "idiv" => some .idiv | "mod" => some .mod
+  | "eq" => some .eq | "ne" => some .ne | "lt" => some .lt | "gt" => some .gt | "le" => some .le | "ge" => some .ge
+  | "and" => some .and | "or" => some .or | "xor" => some .xor | _ => none
+
+partial def parseSrcExpr : List String → Option (Src.Expr × List String)
+  | "N" :: n :: r => do let n ← n.toInt?; pure (.lit n, r)
+  | "V" :: i :: r => do let i ← i.toNat?; pure (.var i, r)
+  | "B" :: op :: r => do
+      let op ← srcOp op
+      let (a, r1) ← parseSrcExpr r
+      let (b, r2) ← parseSrcExpr r1
+      pure (.bin op a b, r2)
+  | "G" :: r => do let (a, r1) ← parseSrcExpr r; pure (.neg a, r1)
+  | "T" :: r => do let (a, r1) ← parseSrcExpr r; pure (.not a, r1)
+  | _ => none
+
+partial def parseSrcClauses : Nat → List String → Option (List Src.Clause × List String)
+  | 0, r => some ([], r)
+  | n + 1, "Q" :: r => do let (e, r1) ← parseSrcExpr r; let (cs, r2) ← parseSrcClauses n r1; pure (.eq e :: cs, r2)
+  | n + 1, "R" :: r => do
+      let (a, r1) ← parseSrcExpr r; let (b, r2) ← parseSrcExpr r1; let (cs, r3) ← parseSrcClauses n r2; pure (.range a b :: cs, r3)
+  | n + 1, "L" :: r => do let (e, r1) ← parseSrcExpr r; let (cs, r2) ← parseSrcClauses n r1; pure (.isLt e :: cs, r2)
+  | n + 1, "H" :: r => do let (e, r1) ← parseSrcExpr r; let (cs, r2) ← parseSrcClauses n r1; pure (.isGt e :: cs, r2)
+  | _, _ => none
+
+mutual
+partial def parseSrcStmts : Nat → List String → Option (List Src.Stmt × List String)
+  | 0, r => some ([], r)
+  | n + 1, r => do
+      let (s, r1) ← parseSrcStmt r
+      let (ss, r2) ← parseSrcStmts n r1
+      pure (s :: ss, r2)
+
+partial def parseSrcBlock : List String → Option (List Src.Stmt × List String)
+  | n :: r => do let n ← n.toNat?; parseSrcStmts n r
+  | [] => none
+
+partial def parseSrcCases : Nat → List String → Option (List (List Src.Clause × List Src.Stmt) × List String)
+  | 0, r => some ([], r)
+  | k + 1, nc :: r => do
+      let nc ← nc.toNat?
+      let (cl, r1) ← parseSrcClauses nc r
+      let (body, r2) ← parseSrcBlock r1
+      let (rest, r3) ← parseSrcCases k r2
+      pure ((cl, body) :: rest, r3)
+  | _, [] => none
+
+partial def parseSrcStmt : List String → Option (Src.Stmt × List String)
+  | "A" :: i :: r => do let i ← i.toNat?; let (e, r1) ← parseSrcExpr r; pure (.assign i e, r1)
+  | "P" :: r => do let (e, r1) ← parseSrcExpr r; pure (.print e, r1)
+  | "I" :: r => do
+      let (c, r1) ← parseSrcExpr r
+      let (t, r2) ← parseSrcBlock r1
+      let (e, r3) ← parseSrcBlock r2
+      pure (.ifElse c t e, r3)
+  | "W" :: r => do let (c, r1) ← parseSrcExpr r; let (b, r2) ← parseSrcBlock r1; pure (.while c b, r2)
+  | "D" :: pk :: r => do
+      let pk ← pk.toNat?
+      let (pre, r1) ← parseSrcExpr r
+      match r1 with
+      | qk :: r2 => do
+          let qk ← qk.toNat?
+          let (post, r3) ← parseSrcExpr r2
+          let (b, r4) ← parseSrcBlock r3
+          pure (.doLoop pk pre qk post b, r4)
+      | [] => none
+  | "F" :: i :: r => do
+      let i ← i.toNat?
+      let (a, r1) ← parseSrcExpr r
+      let (b, r2) ← parseSrcExpr r1
+      let (st, r3) ← parseSrcExpr r2
+      let (body, r4) ← parseSrcBlock r3
+      pure (.for i a b st body, r4)
+  | "S" :: r => do
+      let (e, r1) ← parseSrcExpr r
+      match r1 with
+      | k :: r2 => do
+          let k ← k.toNat?
+          let (cases, r3) ← parseSrcCases k r2
+          let (d, r4) ← parseSrcBlock r3
+          pure (.select e cases d, r4)
+      | [] => none
+  | "XD" :: r => some (.exitDo, r)
+  | "XF" :: r => some (.exitFor, r)
+  | "E" :: r => some (.end_, r)
+  | _ => none
+end
+
+def handleSrc : List String → Option String
+  | fuel :: nv :: r => do
+      let fuel ← fuel.toNat?; let nv ← nv.toNat?
+      let (prog, rest) ← parseSrcBlock r
+      if !rest.isEmpty then none
+      pure (match Src.run fuel nv prog with
+        | none => "fuel"
+        | some res =>
+          " ".intercalate (res.out.map toString) ++ " | " ++
+          (match res.sig with | .normal => "end" | .ended => "end" | .exitDo => "exitdo" | .exitFor => "exitfor" | .trap c => "trap " ++ c))
+  | _ => none
+
 def handle (toks : List String) : String :=
   match toks with
   | "print" :: r =>
@@ -765,6 +871,7 @@ def handle (toks : List String) : String :=
   | "dbgeval" :: r => (handleDbgEval r).getD "bad-op"
   | "blocks" :: r => (handleBlocks r).getD "bad-op"
   | ["lex", t] => (handleLex t).getD "bad-op"
+  | "src" :: r => (handleSrc r).getD "bad-op"
   | ["uscan", f] =>
     match decStr f with
     | some f => match Using.scanFmt f with
